@@ -251,6 +251,18 @@ def correspond(ctx, scale):
                         if not outs_equal(r1, r2):
                             failures.append({'key': f'{f["name"]}:{op}:not-repeatable', 'what': f'{f["name"]}: repeating the pure call "{op}" on the same input gave a different result (history {trace})',
                                              'case': dict(name=f['name'], ops=trace)})
+                        # ambient autograd modes: an evaluation call gives the same values under no_grad / inference_mode and leaves the state alone
+                        if op == 'eval' and oi % 3 == 0:
+                            for cname, cm in (('no_grad', torch.no_grad), ('inference_mode', torch.inference_mode)):
+                                try:
+                                    with cm():
+                                        r3 = flat_out(call(f, mod, x.detach(), op, seed + 2))
+                                except Exception as ex:
+                                    failures.append({'key': f'{f["name"]}:eval:{cname}:exception:{type(ex).__name__}', 'what': f'{f["name"]}: evaluation call under torch.{cname}() raised {ex!r}', 'case': dict(name=f['name'], ops=trace)})
+                                    continue
+                                dist['ambient_mode_calls'] = dist.get('ambient_mode_calls', 0) + 1
+                                if not outs_equal(r1, r3):
+                                    failures.append({'key': f'{f["name"]}:eval:{cname}:differs', 'what': f'{f["name"]}: evaluation call under torch.{cname}() returns different values (history {trace})', 'case': dict(name=f['name'], ops=trace)})
                         ok2, why2 = same(after, blob(mod))
                         if not ok2:
                             failures.append({'key': f'{f["name"]}:{op}:state-changed-on-repeat', 'what': f'{f["name"]}: state changed by repeated pure call: {why2}', 'case': dict(name=f['name'], ops=trace)})
